@@ -453,7 +453,7 @@ func run(c *vf.Ctx) {
 	}
 	wg.Wait() // gated schedules first: their (deterministic) replay files are the ones kept per fingerprint
 	// ---- group scenarios
-	nGroup := c.Pick(1200, 24000)
+	nGroup := c.Pick(1200, 12000)
 	for lo := 0; lo < nGroup; lo += 100 {
 		lo := lo
 		spawn(func() {
@@ -584,7 +584,7 @@ func run(c *vf.Ctx) {
 	c.Require("window:"+ptBeforeWait, 50)
 	c.Require("group_wait_parked_observations", 500)
 	c.Require("group_observer_unsubscribes", c.Pick(1500, 30000))
-	c.Require("group_scenarios_concurrent_creation", c.Pick(500, 10000))
+	c.Require("group_scenarios_concurrent_creation", c.Pick(500, 5000))
 	c.Require("stress_runs_submit_overlapping_shutdown", c.Pick(300, 15000))
 	c.Require("stress_runs_race_build", c.Pick(300, 9000))
 	c.Assume("a consistent runtime.Stack(all) snapshot in which every goroutine is parked on a sync primitive or channel (twice in a row, timer-free scenario) means no goroutine can ever run again")
